@@ -385,6 +385,28 @@ def exhaustive_batch(arg):
     return part
 
 
+def suite_under_monitor(ctx):
+    """Thorough tier: the repository's own suite with the E4 monitor on."""
+    from vf import suite
+    res = suite.run_suite("c14")
+    if res is None:
+        ctx.inconclusive("suite-under-monitor run did not complete")
+        return
+    for k, v in res["events"].items():
+        ctx.count("suite:" + k, v)
+    ctx.extra["suite_summary"] = res["summary"]
+    for f in res["firings"]:
+        if f["property"] != "C14":
+            continue
+        ctx.violation({"kind": "suite:" + f["kind"],
+                       "mechanism": f.get("mechanism"),
+                       "what": "%s [%s]" % (f["what"], f["test"]),
+                       "test": f["test"],
+                       "dedupe": (f["kind"], f.get("op"),
+                                  f.get("transformation"),
+                                  f.get("mechanism"))})
+
+
 def main(ctx):
     ctx.rule = ("histories of public child-list operations (%s) with indices "
                 "in [-6,6] and items that are fresh orphans, attached nodes, "
@@ -441,6 +463,8 @@ def main(ctx):
     ctx.extra["exhaustive_part"] = (
         "all %d single operations; pairs: %d first operations x %d second"
         % (len(space), len(depth2_first), len(space)))
+    if not ctx.quick:
+        suite_under_monitor(ctx)
     if ctx.counters.get("ops_executed", 0) == 0:
         ctx.inconclusive("no operation executed")
     ctx.assumptions += [
